@@ -352,6 +352,12 @@ def oracle_C02(objs, st=None):
         rn = float(np.sqrt(np.sum(res * res)))
         warned = bool(getattr(cap, 'newton_warned', False))
         st.check('residual norm below 1e-9 or a warning was logged', 0.0 if (rn <= 1e-9 or warned) else rn, 1e-9, cid, detail=dict(residual_norm=rn, warned=warned))
+        # the discretised sigma equation evaluated independently of the implementation's own residual function, from the
+        # returned profile and the axis data (so that an error in `_residual` cannot vouch for itself)
+        e2 = (q.etabar / q.curvature) ** 2
+        ind = q.d_d_varphi @ q.sigma + q.iotaN * (e2 * e2 + 1 + q.sigma * q.sigma) - 2 * e2 * (-q.spsi * q.torsion + q.I2 / q.B0) * q.G0 / q.B0
+        ri = float(np.sqrt(np.sum(ind * ind)))
+        st.check('the returned (iota, sigma) satisfy the discretised sigma equation (evaluated independently) or a warning was logged', 0.0 if (ri <= 1e-9 or warned) else ri, 1e-9, cid, detail=dict(residual_norm=ri, warned=warned))
         st.check('sigma at phi=0 equals sigma0', abs(q.sigma[0] - q.sigma0), 0.0, cid)
         st.check('iotaN = iota + helicity*nfp', abs(q.iotaN - (q.iota + q.helicity * q.nfp)), 1e-13 * (1 + abs(q.iotaN)), cid)
         # Jacobian = derivative of the residual at a random state (central differences)
